@@ -708,7 +708,8 @@ static int get_initial_basis1 (
 				else
 				{
 					QSlog("Error: Not enough artificials");
-					{ EGLPNUM_TYPENAME_EGlpNumClearVar (cmax); return -1; }
+					rval = -1;
+					ILL_CLEANUP;
 				}
 			}
 		}
